@@ -99,14 +99,14 @@ Proof.
   - apply IH. apply andb_true_iff in H. tauto.
 Qed.
 
-Lemma accept_inv : forall ch st cs b cs', accept ch st cs b = Some cs' ->
+Lemma accept_inv : forall ch cs b cs', accept ch cs b = Some cs' ->
   (receipts_match (b_txs b) (b_rcpts b) = true /\ tx_hashes_ok ch b = true /\ block_hash_ok b = true /\
-   succession_ok cs b = true /\ roots_ok st cs b = true) /\
-  cs' = {| cs_head := Some (h_number (b_hdr b), b_hash b); cs_root := h_state_root (b_hdr b); cs_state := new_state cs b; cs_blocks := b :: cs_blocks cs |}.
+   succession_ok cs b = true /\ roots_ok cs b = true) /\
+  cs' = {| cs_head := Some (h_number (b_hdr b), b_hash b); cs_state := new_state cs b; cs_blocks := b :: cs_blocks cs |}.
 Proof.
-  intros ch st cs b cs'. unfold accept.
+  intros ch cs b cs'. unfold accept.
   generalize (receipts_match (b_txs b) (b_rcpts b)) (tx_hashes_ok ch b) (block_hash_ok b)
-             (succession_ok cs b) (roots_ok st cs b).
+             (succession_ok cs b) (roots_ok cs b).
   intros [|] [|] [|] [|] [|]; cbn [andb]; intros H; try discriminate.
   injection H as <-. repeat split.
 Time Qed.
@@ -117,50 +117,46 @@ Proof.
   apply term_eqb_true in H. congruence.
 Time Qed.
 
-Lemma roots_ok_sound : forall st cs b, roots_ok st cs b = true ->
-  (st = true -> b_old_root b = cs_root cs) /\
+Lemma roots_ok_sound : forall cs b, roots_ok cs b = true ->
   commitment (pre_0_14 b) (cs_state cs) = b_old_root b /\
   commitment (pre_0_14 b) (new_state cs b) = h_state_root (b_hdr b).
 Proof.
-  unfold roots_ok. intros st cs b.
+  unfold roots_ok. intros cs b.
   generalize (commitment (pre_0_14 b) (cs_state cs)) (commitment (pre_0_14 b) (new_state cs b)).
-  intros x y H. apply andb_true_iff in H. destruct H as [H R2]. apply andb_true_iff in H. destruct H as [R0 R1].
-  apply term_eqb_true in R1. apply term_eqb_true in R2. repeat split; auto.
-  intros ->. apply term_eqb_true in R0. exact R0.
-Time Qed.
+  intros x y H. apply andb_true_iff in H. destruct H as [R1 R2].
+  apply term_eqb_true in R1. apply term_eqb_true in R2. auto.
+Qed.
 
-Theorem accept_sound : forall ch st cs b cs', accept ch st cs b = Some cs' ->
+Theorem accept_sound : forall ch cs b cs', accept ch cs b = Some cs' ->
   linked cs b /\
   Forall2 (fun t r => t_hash t = r_txhash r) (b_txs b) (b_rcpts b) /\
   (tx_verified b = true -> Forall (tx_recomputes ch) (b_txs b)) /\
   block_hash b = Some (b_hash b) /\
-  (st = true -> b_old_root b = cs_root cs) /\
   commitment (pre_0_14 b) (cs_state cs) = b_old_root b /\
   commitment (pre_0_14 b) (new_state cs b) = h_state_root (b_hdr b) /\
   cs' = {| cs_head := Some (h_number (b_hdr b), b_hash b);
-           cs_root := h_state_root (b_hdr b);
            cs_state := new_state cs b;
            cs_blocks := b :: cs_blocks cs |}.
 Proof.
-  intros ch st cs b cs' H. apply accept_inv in H. destruct H as ((R & T & B & S & Ro) & E).
-  apply roots_ok_sound in Ro. destruct Ro as (R0 & R1 & R2).
+  intros ch cs b cs' H. apply accept_inv in H. destruct H as ((R & T & B & S & Ro) & E).
+  apply roots_ok_sound in Ro. destruct Ro as (R1 & R2).
   split; [apply succession_ok_linked; exact S|].
   split; [apply receipts_match_sound; exact R|].
   split; [apply tx_hashes_ok_sound; exact T|].
   split; [apply block_hash_ok_sound; exact B|].
-  split; [exact R0|]. split; [exact R1|]. split; [exact R2 | exact E].
+  split; [exact R1|]. split; [exact R2 | exact E].
 Time Qed.
 
 (* ---------- rejection is pure ---------- *)
-Theorem reject_pure : forall ch st cs b, accept ch st cs b = None -> push ch st cs b = cs.
-Proof. intros ch st cs b H. unfold push. rewrite H. reflexivity. Qed.
+Theorem reject_pure : forall ch cs b, accept ch cs b = None -> push ch cs b = cs.
+Proof. intros ch cs b H. unfold push. rewrite H. reflexivity. Qed.
 
 (* ... at every position of a history: a rejected block can be deleted from the input without any effect *)
-Theorem reject_pure_run : forall ch st bs1 b bs2,
-  accept ch st (run ch st bs1) b = None -> run ch st (bs1 ++ b :: bs2) = run ch st (bs1 ++ bs2).
+Theorem reject_pure_run : forall ch bs1 b bs2,
+  accept ch (run ch bs1) b = None -> run ch (bs1 ++ b :: bs2) = run ch (bs1 ++ bs2).
 Proof.
-  intros ch st bs1 b bs2 H. unfold run in *. rewrite !fold_left_app. simpl.
-  rewrite (reject_pure _ _ _ _ H). reflexivity.
+  intros ch bs1 b bs2 H. unfold run in *. rewrite !fold_left_app. simpl.
+  rewrite (reject_pure _ _ _ H). reflexivity.
 Qed.
 
 (* ---------- the committed projection by format, and the tamper theorem ---------- *)
@@ -204,21 +200,21 @@ Qed.
 
 (* b is a block whose declared hash recomputes; b' carries the same declared hash but differs from b in a
    committed field: it is rejected, whatever the chain state *)
-Theorem tamper_rejected : forall ch st cs b b', block_wf b -> block_wf b' -> same_sig_rule b' b ->
+Theorem tamper_rejected : forall ch cs b b', block_wf b -> block_wf b' -> same_sig_rule b' b ->
   block_hash b = Some (b_hash b) -> b_hash b' = b_hash b -> committed b' <> committed b ->
-  accept ch st cs b' = None.
+  accept ch cs b' = None.
 Proof.
-  intros ch st cs b b' W W' SR V D N. destruct (accept ch st cs b') as [cs'|] eqn:A; [|reflexivity].
+  intros ch cs b b' W W' SR V D N. destruct (accept ch cs b') as [cs'|] eqn:A; [|reflexivity].
   exfalso. apply accept_sound in A. destruct A as (_ & _ & _ & BH & _).
   rewrite D in BH. apply N. eapply preimage_injective; eauto.
 Qed.
 
 (* a transaction whose declared hash belongs to different fields *)
-Theorem tx_tamper_rejected : forall ch st cs b' t' body, In t' (b_txs b') -> tx_verified b' = true ->
+Theorem tx_tamper_rejected : forall ch cs b' t' body, In t' (b_txs b') -> tx_verified b' = true ->
   tx_ok body -> tx_ok (t_body t') -> tx_hash ch body = t_hash t' -> t_body t' <> body ->
-  accept ch st cs b' = None.
+  accept ch cs b' = None.
 Proof.
-  intros ch st cs b' t' body I TV O O' V N. destruct (accept ch st cs b') as [cs'|] eqn:A; [|reflexivity].
+  intros ch cs b' t' body I TV O O' V N. destruct (accept ch cs b') as [cs'|] eqn:A; [|reflexivity].
   exfalso. apply accept_sound in A. destruct A as (_ & _ & T & _). specialize (T TV).
   rewrite Forall_forall in T. specialize (T _ I). destruct T as [T|T].
   - unfold is_unverified in T. destruct (t_body t'); try discriminate. exact O'.
@@ -227,13 +223,11 @@ Qed.
 
 (* a declared state root that is not the commitment of (current state + diff), a stale old root, or a broken
    linkage: rejected *)
-Theorem wrong_root_rejected : forall ch st cs b,
+Theorem wrong_root_rejected : forall ch cs b,
   commitment (pre_0_14 b) (new_state cs b) <> h_state_root (b_hdr b) \/
-  commitment (pre_0_14 b) (cs_state cs) <> b_old_root b \/
-  (st = true /\ b_old_root b <> cs_root cs) \/ ~ linked cs b ->
-  accept ch st cs b = None.
+  commitment (pre_0_14 b) (cs_state cs) <> b_old_root b \/ ~ linked cs b ->
+  accept ch cs b = None.
 Proof.
-  intros ch st cs b H. destruct (accept ch st cs b) as [cs'|] eqn:A; [|reflexivity].
-  exfalso. apply accept_sound in A. destruct A as (L & _ & _ & _ & R0 & R1 & R2 & _).
-  destruct H as [H|[H|[[S H]|H]]]; auto.
+  intros ch cs b H. destruct (accept ch cs b) as [cs'|] eqn:A; [|reflexivity].
+  exfalso. apply accept_sound in A. destruct A as (L & _ & _ & _ & R1 & R2 & _). tauto.
 Qed.
